@@ -5,7 +5,7 @@
 (* by the suspended inner queues).  One handler invocation is two steps (Invoke .. Ret); the     *)
 (* handler's own posts / add_handler / remove_handler calls happen in between.                   *)
 EXTENDS Integers, Sequences, FiniteSets, TLC
-CONSTANTS Ev, Hid, Prio, MaxPosts, MaxOps, Deviations
+CONSTANTS Ev, Hid, Prio, MaxPosts, MaxOps, Deviations, TySet, HkSet, CondSet, CSet
 VARIABLES reg,      \* registered handlers: set of [id, ev, prio, hk, cond]  (cond = -1: none, else required kwarg c)
           inst,     \* posted instances: sequence of [ev, ty, cb, c, parent, path]
           nchild,   \* [0..n -> Nat] number of events posted so far by each instance (0 = top level)
@@ -99,12 +99,13 @@ Callback ==
     /\ UNCHANGED <<reg, inst, nchild, newp, agenda, cur, snap, done, relay, stopped, inh, status, nops>>
 CbEnd == /\ incb # 0 /\ incb' = 0 /\ act' = [op |-> "cbend"]
          /\ UNCHANGED <<reg, inst, nchild, newp, agenda, cur, snap, done, relay, stopped, inh, cbq, status, nops>>
-Next == \/ \E e \in Ev, ty \in {"plain", "boolean", "relay"}, cb \in BOOLEAN, c \in {0, 1} : Post(e, ty, cb, c)
-        \/ \E h \in Hid, e \in Ev, p \in Prio, hk \in BOOLEAN, cond \in {-1, 1} : AddHandler(h, e, p, hk, cond)
+Next == \/ \E e \in Ev, ty \in TySet, cb \in BOOLEAN, c \in CSet : Post(e, ty, cb, c)
+        \/ \E h \in Hid, e \in Ev, p \in Prio, hk \in HkSet, cond \in CondSet : AddHandler(h, e, p, hk, cond)
         \/ \E h \in Hid : RemoveHandler(h)
         \/ Begin \/ EndDispatch \/ Callback \/ CbEnd
         \/ \E h \in snap : Invoke(h)
         \/ \E v \in {"none", "false", "dict"} : Ret(v)
 Spec == Init /\ [][Next]_vars
+DefaultCondSet == {-1, 1}
 Quiet == Idle /\ Pending = <<>> /\ cbq = <<>>
 =============================================================================
